@@ -379,6 +379,21 @@ Section Refine.
     specialize (IH win'). pose proof (rest_cost_nonneg pc). lia.
   Qed.
 
+  (* every instruction costs at most fetch + decode + memory read + the slowest
+     execute (a load: 50) + the slowest write-back (a store: MemoryAccess) *)
+  Lemma rest_cost_upper pc : rest_cost pc <= 1 + MemoryAccess + 50 + MemoryAccess.
+  Proof.
+    unfold rest_cost. destruct (nth_error app (Z.to_nat (pc / 4))) as [i|]; [|unfold MemoryAccess; lia].
+    unfold cost1, MemoryAccess, cyclesDecode, RegisterAccess. destruct i; cbn; lia.
+  Qed.
+
+  Lemma tcost_upper v win tr : tcost v win tr <= (2 + 3 * MemoryAccess + 50) * Z.of_nat (length tr).
+  Proof.
+    revert win. induction tr as [|pc t IH]; intros win; cbn [tcost length]; [lia|].
+    pose proof (fetch12_bounds v pc win) as Hf. destruct (fetch12 v pc win) as [c1 win'].
+    specialize (IH win'). pose proof (rest_cost_upper pc). unfold MemoryAccess in *. lia.
+  Qed.
+
   Lemma tcost_V2_le_V1 win1 win2 tr : tcost V2 win2 tr <= tcost V1 win1 tr.
   Proof.
     revert win1 win2. induction tr as [|pc t IH]; intros win1 win2; cbn [tcost]; [lia|].
@@ -413,6 +428,19 @@ Section Refine.
   Proof.
     intros Hinv Hrun He. destruct st as [rg mm]. unfold mvp12_run.
     eapply mrun_errors; try eassumption. unf_rng; lia.
+  Qed.
+
+  (* C07 (MVP-1, MVP-2): the run terminates without panic within the fuel the
+     sequential machine needs, and the cycle count is bounded by a fixed multiple
+     of the number of executed instructions times the memory latency *)
+  Theorem mvp12_terminates v fuel st st' tr :
+    inv (regs st) (mem st) ->
+    seq_run fuel sp labels st = Done st' tr ->
+    exists c, mvp12_run v fuel app labels st = MDone c st' /\
+              c <= (2 + 3 * MemoryAccess + 50) * Z.of_nat (length tr).
+  Proof.
+    intros Hinv Hrun. eexists. split; [apply mvp12_refines_seq; eassumption|].
+    rewrite <- rev_length. apply tcost_upper.
   Qed.
 
   (* C12: MVP-1's count is the sum over the executed instructions of
